@@ -1,6 +1,7 @@
 #!/bin/bash
 # mut-matrix.sh [name...]: evaluate the seeded mutations (all, or the named ones) against the checks listed in
-# seeded/<name>/props and leave the transcript in seeded/<name>/eval.log.  Uses scratch worktrees of /repo under /tmp.
+# seeded/<name>/props and leave the transcript in seeded/<name>/eval.log (FAST=1: checks only; the full confirmation
+# transcript - demo without/with the patch, suite with the patch - is kept as seeded/<name>/confirm.log).  Uses scratch worktrees of /repo under /tmp.
 V=$(cd "$(dirname "$0")/.." && pwd)
 cd $V
 names="$@"
@@ -9,5 +10,6 @@ for n in $names; do
   [ -f seeded/$n/props ] || continue
   echo "######## $n: $(cat seeded/$n/props)"
   FAST=${FAST:-0} bin/mut-eval.sh seeded/$n $(cat seeded/$n/props) 2>&1 | grep -v "^WARNING" > seeded/$n/eval.log
+  [ "${FAST:-0}" = 0 ] && cp seeded/$n/eval.log seeded/$n/confirm.log
   grep -E "^(== demo|ok|FAIL|---|VIOLATION|OK)" seeded/$n/eval.log | cut -c1-200
 done
